@@ -113,6 +113,10 @@ def verus_engine(prop, tier, scratch):
             attributed = set(fprops) | {'C01'}
         else:
             attributed = set(fprops) or {'C01'}
+            # clause-level attribution: `// @props C03,C13` on the line of the failed clause narrows the function's tags
+            cm = re.search(r'//\s*@props\s+([C0-9, ]+)', c.get('clause') or '')
+            if cm and c['kind'] in ('post', 'invariant', 'assert'):
+                attributed = set(x.strip() for x in cm.group(1).split(',') if x.strip())
         if key and key[0].startswith('vs') and not fprops:
             # a spec-level lemma failed: machinery, not code
             undecided.append(c)
